@@ -337,6 +337,64 @@ func contradictsField(f *ssa.Function, field string, want bool) func(*ssa.BasicB
 	}
 }
 
+// sendPoint is a channel send: a Send instruction, or a send arm of a select.
+// After is where execution continues once the send has happened (the
+// instruction itself for Send, the first instruction of the arm for select).
+type sendPoint struct {
+	Instr ssa.Instruction
+	Chan  ssa.Value
+	After []ssa.Instruction // start set; Incl tells whether it is inclusive
+	Incl  bool
+}
+
+func sendPoints(f *ssa.Function) []sendPoint {
+	var out []sendPoint
+	for _, in := range instrs(f) {
+		switch x := in.(type) {
+		case *ssa.Send:
+			out = append(out, sendPoint{Instr: x, Chan: x.Chan, After: []ssa.Instruction{x}})
+		case *ssa.Select:
+			for k, st := range x.States {
+				if st.Dir != types.SendOnly {
+					continue
+				}
+				sp := sendPoint{Instr: x, Chan: st.Chan, After: []ssa.Instruction{x}}
+				if arm := selectArmBlock(x, k); arm != nil {
+					sp.After = blockStart(arm)
+					sp.Incl = true
+				}
+				out = append(out, sp)
+			}
+		}
+	}
+	return out
+}
+
+// selectArmBlock returns the block executed when select chose state k.
+func selectArmBlock(sel *ssa.Select, k int) *ssa.BasicBlock {
+	if sel.Referrers() == nil {
+		return nil
+	}
+	for _, u := range *sel.Referrers() {
+		e, ok := u.(*ssa.Extract)
+		if !ok || e.Index != 0 || e.Referrers() == nil {
+			continue
+		}
+		for _, uu := range *e.Referrers() {
+			b, ok := uu.(*ssa.BinOp)
+			if !ok || b.Op != token.EQL {
+				continue
+			}
+			if n, isC := constInt(b.Y); isC && int(n) == k {
+				for _, ce := range branchesOn(b) {
+					return ce.True
+				}
+			}
+		}
+	}
+	return nil
+}
+
 // blockStart returns the first instruction of a block as a start set.
 func blockStart(b *ssa.BasicBlock) []ssa.Instruction {
 	if len(b.Instrs) == 0 {
